@@ -15,6 +15,10 @@ CLAIMED = {
    text="Same specification and state space as C05; decides totality (no panic in from_bytes or Display for any enumerated or recorded input, including nested CERT/DELE/SREP values that do not decode) and exactness (values concatenated equal the input after the header).",
    note="Panics are observed under catch_unwind; stack exhaustion by pathological nesting depth is not explored (quadratic Display cost).",
    technique="TLA+ reference codec + TLC small-scope enumeration; replay under catch_unwind; trace validation"),
+ "C13": dict(level="model_checking", ref="6 C13",
+   text="Signer.tla models MsgSigner (buffer, sign clears it) and MsgVerifier (buffer kept); TLC explores every op sequence up to 6 (quick) / 8 (thorough) ops over 3 chunk ids incl. the empty chunk and checks NoCarryOver; every sign/verify-completing behaviour is replayed on real objects with 4 chunk-size maps and several seeds (signature bytes compared with one-shot ed25519-dalek over exactly the chunks the spec says are covered); recorded runs (every message length 0..4096, random chunkings, >=32 messages per signer, verifier on valid triples and all single-bit flips of signature/key and message) are validated against Trace_Signer.tla, where the interpretation determines which chunk range each real signature covers.",
+   note="RFC 8032 equality is decided by ed25519-dalek (trusted oracle, vector-checked at start), not by TLC; a panic in MsgVerifier counts as reject.",
+   technique="TLA+ object spec + TLC; behaviours replayed into MsgSigner/MsgVerifier; recorded runs validated against Trace_Signer.tla"),
 }
 PENDING_REASON = "check not built yet in this session (see DESIGN.md section 6 for the planned TLA+ treatment)"
 
